@@ -25,6 +25,9 @@ type VerifStepInfo struct {
 	BaseN     int // index of the frame's first local slot
 	Func      string
 	Line      int
+	// SlotType: for LOCALSET and LOCALZERO the type tag the target slot holds BEFORE the instruction
+	// (0: nil, a slot nothing has been stored in); -1 for every other instruction
+	SlotType int
 }
 
 var verifBudget int64 = -1
@@ -53,7 +56,14 @@ func verifStep(v *VM) {
 	if verifTracer != nil {
 		i := &v.frame.Codes[v.frame.N]
 		_, fn, line, _ := i.Pos.info(v.globals)
+		slotType := -1
+		if i.Code == codeLocalSet || i.Code == codeLocalZero {
+			if k := v.frame.BaseN + int(i.A); k >= 0 && k < len(v.stack) {
+				slotType = int(v.stack[k].t)
+			}
+		}
 		verifTracer(VerifStepInfo{
+			SlotType:  slotType,
 			CallDepth: len(v.backtrace),
 			N:         v.frame.N,
 			CodeCap:   cap(v.frame.Codes),
